@@ -7,6 +7,7 @@ import (
 	"time"
 
 	"github.com/yandex/mysync/internal/config"
+	"github.com/yandex/mysync/verif/world"
 )
 
 // C02 — single-fault tolerance: converge, inject one fault, heal, quiesce; judge the final state,
@@ -22,6 +23,7 @@ type c02Spec struct {
 	Target    string  `json:"target"`
 	OffsetMs  int     `json:"offset_ms"`
 	DurationS float64 `json:"duration_s"`
+	SlowApply bool    `json:"replicas_apply_slower_than_the_master_writes"`
 }
 
 var c02Faults = []string{
@@ -45,6 +47,7 @@ func c02Gen(seed int64, idx int) c02Spec {
 	sp.MFirst = r.Intn(2) == 0
 	sp.OffsetMs = r.Intn(5000) // across the tick / health-check cycle
 	sp.DurationS = []float64{2, 8, 20, 45, 120}[r.Intn(5)]
+	sp.SlowApply = r.Intn(3) == 0
 	return sp
 }
 
@@ -89,6 +92,15 @@ func c02Run(u *Unit) {
 		if !waitConverged(sc, 3*time.Minute) {
 			sc.Inconclusive("cluster did not converge before the fault: " + s.CheckCanonical(nil).Why)
 			return
+		}
+		if sp.SlowApply {
+			// every replica applies half as fast as the clients write: acknowledged transactions sit in relay logs,
+			// received but not applied, when the fault comes
+			for _, h := range s.AllHosts() {
+				s.W.Manual(h, "slow applier", func(x *world.Server) { x.ApplyRate = 1 })
+			}
+			time.Sleep(10 * time.Second)
+			sc.Cover("apply-lag-at-fault")
 		}
 		time.Sleep(time.Duration(sp.OffsetMs) * time.Millisecond)
 		master := s.Master()
@@ -181,6 +193,11 @@ func c02Run(u *Unit) {
 		sp.Target = target
 		time.Sleep(dur)
 		heal()
+		if sp.SlowApply {
+			for _, h := range s.AllHosts() {
+				s.W.Manual(h, "applier back to normal", func(x *world.Server) { x.ApplyRate = 0 })
+			}
+		}
 		tHeal := s.W.Now().Seconds()
 		during := ackedBetween(sc, tFault, tHeal)
 		// quiesce: canonical, full list, and still canonical 30 s later
@@ -230,11 +247,11 @@ func c02Run(u *Unit) {
 func init() {
 	register(&Prop{ID: "C02", Units: func(tier string) int { return tierN(tier, 300, 3000) }, Run: c02Run,
 		Floor: func(string) []string {
-			f := []string{"outcome:master-changed", "outcome:master-kept", "acked-before-and-after"}
+			f := []string{"outcome:master-changed", "outcome:master-kept", "acked-before-and-after", "apply-lag-at-fault"}
 			for _, k := range c02Faults {
 				f = append(f, "fault:"+k)
 			}
 			return f
 		},
-		Rule: "scenario i = fault kind i mod 15 with seeded cluster shape (2-4 HA, cascade, wait count, failover, adjust order), injection offset over the tick cycle and duration in {2,8,20,45,120}s; converge, inject, heal, quiesce; non-trivial = the fault was injected into a converged cluster and the run reached a verdict; distinct by (fault, n, cascade, w, failover, order, duration, master changed)"})
+		Rule: "scenario i = fault kind i mod 15 with seeded cluster shape (2-4 HA, cascade, wait count, failover, adjust order), injection offset over the tick cycle, replicas that apply slower than the clients write (a third of the scenarios) and duration in {2,8,20,45,120}s; converge, inject, heal, quiesce; non-trivial = the fault was injected into a converged cluster and the run reached a verdict; distinct by (fault, n, cascade, w, failover, order, duration, master changed)"})
 }
